@@ -4,9 +4,24 @@ Helper lemmas for C19 panic-freedom, part 1: unpacking of `xwf`, the state-stack
 that respects the `past` certificate), and the generic reduction step on such stacks.
 -/
 import TmVerif.Model.LRXSafe
-import TmVerif.Proofs.LRSoundInv
+import TmVerif.Proofs.LRSoundAccept
 namespace TmVerif.LRX
 open TmVerif.LR TmVerif.CFG TmVerif.LRSound
+
+/-- what `ranksOk` says -/
+structure RankFacts (g : Grammar) (x : XTables) (cert : Cert) (xc : XCert) : Prop where
+  rankB : ∀ i a s, i < g.inputs.size → a < x.t.nTerms → s < x.t.nStates →
+    rankOf xc i a s ≤ rankBound x
+  weightPos : 1 ≤ xc.weight
+  red : ∀ i a s, i < g.inputs.size → a < x.t.nTerms → s < x.t.nStates →
+    reduceOk g x cert xc (xedges x) i a s = true
+
+theorem rankFacts {g : Grammar} {x : XTables} {cert : Cert} {xc : XCert}
+    (h3 : ranksOk g x cert xc = true) : RankFacts g x cert xc := by
+  unfold ranksOk at h3
+  simp only [List.all_eq_true, List.mem_range, Bool.and_eq_true, decide_eq_true_eq] at h3
+  exact ⟨fun i a s hi ha hs => (h3.2 i hi a ha s hs).1, h3.1,
+    fun i a s hi ha hs => (h3.2 i hi a ha s hs).2⟩
 
 structure XFacts (g : Grammar) (x : XTables) (cert : Cert) (xc : XCert) : Prop where
   reports : ∀ (i : Nat) (info : RuleInfo) (ln : Int), x.rules[i]? = some info →
@@ -16,32 +31,17 @@ structure XFacts (g : Grammar) (x : XTables) (cert : Cert) (xc : XCert) : Prop w
   errGoto : x.recovering = true → ∀ p : Nat, p < x.t.nStates →
     ∃ q, gotoState x.t p x.errSym = some q ∧
       (q = -1 ∨ edgeOk g.inputs.size x.t cert p x.errSym q = true)
-  rankB : ∀ a s, a < x.t.nTerms → s < x.t.nStates → rankOf xc a s ≤ rankBound x
-  weightPos : 1 ≤ xc.weight
+  reachX : ∀ i, i < g.inputs.size → ∀ p X q, (p, X, q) ∈ errEdges x → p ∈ reachOf cert i →
+    q.toNat ∈ reachOf cert i
   weightLe : xc.weight ≤ 4
-  red : ∀ a s, a < x.t.nTerms → s < x.t.nStates → reduceOk g x xc (xedges x) a s = true
-
-/-- what `ranksOk` says -/
-structure RankFacts (g : Grammar) (x : XTables) (xc : XCert) : Prop where
-  rankB : ∀ a s, a < x.t.nTerms → s < x.t.nStates → rankOf xc a s ≤ rankBound x
-  weightPos : 1 ≤ xc.weight
-  red : ∀ a s, a < x.t.nTerms → s < x.t.nStates → reduceOk g x xc (xedges x) a s = true
-
-theorem rankFacts {g : Grammar} {x : XTables} {xc : XCert} (h3 : ranksOk g x xc = true) :
-    RankFacts g x xc := by
-  unfold ranksOk at h3
-  simp only [List.all_eq_true, List.mem_range, Bool.and_eq_true, decide_eq_true_eq] at h3
-  exact ⟨fun a s ha hs => (h3.2 a ha s hs).1, h3.1, fun a s ha hs => (h3.2 a ha s hs).2⟩
-
-theorem XFacts.rk {g : Grammar} {x : XTables} {cert : Cert} {xc : XCert}
-    (h : XFacts g x cert xc) : RankFacts g x xc := ⟨h.rankB, h.weightPos, h.red⟩
+  rk : RankFacts g x cert xc
 
 theorem xFacts {g : Grammar} {x : XTables} {cert : Cert} {xc : XCert}
     (h : xwf g x cert xc = true) : XFacts g x cert xc := by
   unfold xwf at h
   simp only [Bool.and_eq_true, decide_eq_true_eq] at h
-  obtain ⟨⟨⟨h1, h2⟩, h3⟩, h4⟩ := h
-  refine ⟨?_, ?_, ?_, ?_, ?_, h4, ?_⟩
+  obtain ⟨⟨⟨⟨h1, h2⟩, hrx⟩, h3⟩, h4⟩ := h
+  refine ⟨?_, ?_, ?_, ?_, h4, rankFacts h3⟩
   · intro i info ln hi hl r hr
     unfold reportsOk at h1
     simp only [List.all_eq_true, List.mem_range] at h1
@@ -73,88 +73,127 @@ theorem xFacts {g : Grammar} {x : XTables} {cert : Cert} {xc : XCert}
       rw [hg] at this
       simp only [Bool.or_eq_true, beq_iff_eq] at this
       exact ⟨q, rfl, this⟩
-  · intro a s ha hs
-    unfold ranksOk at h3
-    simp only [List.all_eq_true, List.mem_range, Bool.and_eq_true, decide_eq_true_eq] at h3
-    exact (h3.2 a ha s hs).1
-  · unfold ranksOk at h3
-    simp only [List.all_eq_true, List.mem_range, Bool.and_eq_true, decide_eq_true_eq] at h3
-    exact h3.1
-  · intro a s ha hs
-    unfold ranksOk at h3
-    simp only [List.all_eq_true, List.mem_range, Bool.and_eq_true, decide_eq_true_eq] at h3
-    exact (h3.2 a ha s hs).2
+  · intro i hi p X q hm hp
+    unfold reachXOk at hrx
+    simp only [List.all_eq_true, List.mem_range] at hrx
+    have := hrx i hi (p, X, q) hm
+    simp only [Bool.or_eq_true, Bool.not_eq_true', List.contains_eq_mem, decide_eq_false_iff_not,
+      decide_eq_true_eq] at this
+    rcases this with h | h
+    · exact absurd hp h
+    · exact h
+
+/-- the reachable sets of the soundness certificate contain the entry states and are closed under
+all transitions of the extended runtime -/
+def ReachClosed (g : Grammar) (x : XTables) (cert : Cert) : Prop :=
+  ∀ i, i < g.inputs.size → i ∈ reachOf cert i ∧
+    ∀ p X (q : Nat), (p, X, (q : Int)) ∈ xedges x → p ∈ reachOf cert i → q ∈ reachOf cert i
+
+theorem reachClosed {g : Grammar} {x : XTables} {cert : Cert}
+    (hc : CertFacts g x.t cert)
+    (hrx : ∀ i, i < g.inputs.size → ∀ p X q, (p, X, q) ∈ errEdges x → p ∈ reachOf cert i →
+      q.toNat ∈ reachOf cert i) : ReachClosed g x cert := by
+  intro i hi
+  obtain ⟨_, _, _, _, _, _, _, _, hr, _⟩ := finalOk_elim (hc.finals i hi)
+  obtain ⟨h1, h2⟩ := reachOk_elim hr
+  refine ⟨h1, fun p X q hm hp => ?_⟩
+  unfold xedges at hm
+  rcases List.mem_append.1 hm with hm | hm
+  · exact h2 p X q hm hp
+  · have := hrx i hi p X _ hm hp
+    simpa using this
+
+theorem XFacts.closed {g : Grammar} {x : XTables} {cert : Cert} {xc : XCert}
+    (hc : CertFacts g x.t cert) (h : XFacts g x cert xc) : ReachClosed g x cert :=
+  reachClosed hc h.reachX
 
 /-! ### the state-stack invariant -/
 
-/-- `StOk g x cert sts syms`: `sts` (top first) is a path of transitions of the tables from an entry
-state, with symbols `syms` (top first), each transition respecting the `past` certificate. -/
-inductive StOk (g : Grammar) (x : XTables) (cert : Cert) : List Nat → List Int → Prop
-  | base (s : Nat) : s < g.inputs.size → StOk g x cert [s] []
+/-- `StOk g x cert i sts syms`: `sts` (top first) is a path of transitions of the tables from the
+entry state `i`, with symbols `syms` (top first), each transition respecting the `past`
+certificate, inside the reachable set of `i`. -/
+inductive StOk (g : Grammar) (x : XTables) (cert : Cert) (i : Nat) : List Nat → List Int → Prop
+  | base : i < g.inputs.size → i ∈ reachOf cert i → StOk g x cert i [i] []
   | push (q p : Nat) (rest : List Nat) (X : Nat) (syms : List Int) :
-      StOk g x cert (p :: rest) syms → (p, X, (q : Int)) ∈ xedges x → q < x.t.nStates →
-      pastOf cert (q : Nat) <+: (X : Int) :: pastOf cert (p : Nat) →
-      StOk g x cert (q :: p :: rest) ((X : Int) :: syms)
+      StOk g x cert i (p :: rest) syms → (p, X, (q : Int)) ∈ xedges x → q < x.t.nStates →
+      pastOf cert (q : Nat) <+: (X : Int) :: pastOf cert (p : Nat) → q ∈ reachOf cert i →
+      StOk g x cert i (q :: p :: rest) ((X : Int) :: syms)
 
-variable {g : Grammar} {x : XTables} {cert : Cert}
+variable {g : Grammar} {x : XTables} {cert : Cert} {i : Nat}
 
-theorem StOk.length {sts : List Nat} {syms : List Int} (h : StOk g x cert sts syms) :
+theorem StOk.length {sts : List Nat} {syms : List Int} (h : StOk g x cert i sts syms) :
     sts.length = syms.length + 1 := by
   induction h with
-  | base s _ => rfl
-  | push q p rest X syms _ _ _ _ ih => simp [ih]
+  | base _ _ => rfl
+  | push q p rest X syms _ _ _ _ _ ih => simp [ih]
 
-theorem StOk.ne_nil {sts : List Nat} {syms : List Int} (h : StOk g x cert sts syms) : sts ≠ [] := by
+theorem StOk.ne_nil {sts : List Nat} {syms : List Int} (h : StOk g x cert i sts syms) : sts ≠ [] := by
   cases h <;> simp
 
 theorem StOk.lt (hc : CertFacts g x.t cert) {sts : List Nat} {syms : List Int}
-    (h : StOk g x cert sts syms) : ∀ s ∈ sts, s < x.t.nStates := by
+    (h : StOk g x cert i sts syms) : ∀ s ∈ sts, s < x.t.nStates := by
   induction h with
-  | base s hs => intro s' hs'; simp at hs'; subst hs'; have := hc.nIn; omega
-  | push q p rest X syms _ _ hq _ ih =>
+  | base hs _ => intro s' hs'; simp at hs'; subst hs'; have := hc.nIn; omega
+  | push q p rest X syms _ _ hq _ _ ih =>
     intro s hs
     rcases List.mem_cons.1 hs with h | h
     · subst h; exact hq
     · exact ih s h
 
 theorem StOk.past (hc : CertFacts g x.t cert) {s : Nat} {rest : List Nat} {syms : List Int}
-    (h : StOk g x cert (s :: rest) syms) : pastOf cert (s : Nat) <+: syms := by
+    (h : StOk g x cert i (s :: rest) syms) : pastOf cert (s : Nat) <+: syms := by
   generalize hsts : s :: rest = sts at h
   induction h generalizing s rest with
-  | base s' hs' =>
+  | base hs' _ =>
     injection hsts with h1 _
     subst h1
     rw [hc.pastEntry s hs']; exact List.nil_prefix
-  | push q p rest' X syms _ _ _ hp ih =>
+  | push q p rest' X syms _ _ _ hp _ ih =>
     injection hsts with h1 _
     subst h1
     exact hp.trans ((List.prefix_cons_inj _).mpr (ih rfl))
 
 /-- every suffix (the stack after pops) satisfies the invariant -/
-theorem StOk.drop {sts : List Nat} {syms : List Int} (h : StOk g x cert sts syms) :
-    ∀ k, k < sts.length → StOk g x cert (sts.drop k) (syms.drop k) := by
+theorem StOk.drop {sts : List Nat} {syms : List Int} (h : StOk g x cert i sts syms) :
+    ∀ k, k < sts.length → StOk g x cert i (sts.drop k) (syms.drop k) := by
   induction h with
-  | base s hs =>
+  | base hs hr =>
     intro k hk
     have : k = 0 := by simpa using hk
-    subst this; exact .base s hs
-  | push q p rest X syms h0 he hq hp ih =>
+    subst this; exact .base hs hr
+  | push q p rest X syms h0 he hq hp hr ih =>
     intro k hk
     cases k with
-    | zero => exact .push q p rest X syms h0 he hq hp
+    | zero => exact .push q p rest X syms h0 he hq hp hr
     | succ k => simpa using ih k (by simpa using hk)
+
+theorem StOk.mem_reach {sts : List Nat} {syms : List Int} (h : StOk g x cert i sts syms) :
+    ∀ s ∈ sts, s ∈ reachOf cert i := by
+  induction h with
+  | base _ hr => intro s hs; simp at hs; subst hs; exact hr
+  | push q p rest X syms _ _ _ _ hr ih =>
+    intro s hs
+    rcases List.mem_cons.1 hs with h | h
+    · subst h; exact hr
+    · exact ih s h
+
+theorem StOk.input_lt {sts : List Nat} {syms : List Int} (h : StOk g x cert i sts syms) :
+    i < g.inputs.size := by
+  induction h with
+  | base hs _ => exact hs
+  | push _ _ _ _ _ _ _ _ _ _ ih => exact ih
 
 /-- walking the top symbols backwards stays inside `backStates` -/
 theorem StOk.back : ∀ (β : List Int) (sts : List Nat) (syms syms' : List Int) (s : Nat)
-    (rest : List Nat) (S : List Nat), StOk g x cert sts syms → sts = s :: rest →
+    (rest : List Nat) (S : List Nat), StOk g x cert i sts syms → sts = s :: rest →
     syms = β ++ syms' → s ∈ S →
     ∃ p' rest', sts.drop β.length = p' :: rest' ∧ p' ∈ backStates (xedges x) β S
   | [], sts, syms, syms', s, rest, S, _, hs, _, hS => by
     subst hs; exact ⟨s, rest, rfl, hS⟩
   | X :: β, sts, syms, syms', s, rest, S, h, hs, he, hS => by
     cases h with
-    | base s0 _ => simp at he
-    | push q p rest0 X' syms0 h0 hedge hq hp =>
+    | base _ _ => simp at he
+    | push q p rest0 X' syms0 h0 hedge hq hp _ =>
       injection hs with h1 h2
       subst h1
       simp only [List.cons_append, List.cons.injEq] at he
@@ -261,9 +300,11 @@ theorem ruleOk_elim {s : Nat} {r : Int} (h : ruleOk g x.t cert s r = true) :
 
 /-- one reduction on a certified state stack: no underflow, the goto is a state, the new stack is
 certified again and the potential `height + rank` decreases -/
-theorem StOk.reduce (hc : CertFacts g x.t cert) (hx : RankFacts g x xc)
+theorem StOk.reduce (hc : CertFacts g x.t cert) (hx : RankFacts g x cert xc)
+    (hcl : ReachClosed g x cert)
     {s a : Nat} {rest : List Nat} {syms : List Int} {r : Int}
-    (h : StOk g x cert (s :: rest) syms) (ha : a < x.t.nTerms)
+    (h : StOk g x cert i (s :: rest) syms) (ha : a < x.t.nTerms)
+    (hfin : (s : Int) ≠ finOf x i)
     (hact : actOf x.t noDeep s a = some (.reduce r)) :
     ∃ (rule : Rule) (p' : Nat) (rest' : List Nat) (q : Nat),
       0 ≤ r ∧ g.rules[r.toNat]? = some rule ∧
@@ -271,9 +312,11 @@ theorem StOk.reduce (hc : CertFacts g x.t cert) (hx : RankFacts g x xc)
       geti x.t.ruleSymbol r = some (rule.lhs : Int) ∧
       (s :: rest).drop rule.rhs.length = p' :: rest' ∧
       gotoState x.t p' rule.lhs = some (q : Int) ∧
-      StOk g x cert (q :: p' :: rest') ((rule.lhs : Int) :: syms.drop rule.rhs.length) ∧
-      rankOf xc a q + xc.weight + 1 ≤ rankOf xc a s + xc.weight * rule.rhs.length := by
+      StOk g x cert i (q :: p' :: rest') ((rule.lhs : Int) :: syms.drop rule.rhs.length) ∧
+      rankOf xc i a q + xc.weight + 1 ≤ rankOf xc i a s + xc.weight * rule.rhs.length := by
   have hs : s < x.t.nStates := h.lt hc s (by simp)
+  have hi := h.input_lt
+  have hsr : s ∈ reachOf cert i := h.mem_reach s (by simp)
   obtain ⟨rule, hr0, hrule, hlen, hsym, hpre⟩ := ruleOk_elim (ruleOk_of_act hc hs ha hact)
   obtain ⟨syms', hsyms⟩ := hpre.trans (h.past hc)
   obtain ⟨p', rest', hdrop, hback⟩ :=
@@ -281,13 +324,6 @@ theorem StOk.reduce (hc : CertFacts g x.t cert) (hx : RankFacts g x xc)
       (by simp)
   have hn : (rule.rhs.reverse.map Int.ofNat).length = rule.rhs.length := by simp
   rw [hn] at hdrop
-  have hred := hx.red a s ha hs
-  unfold reduceOk at hred
-  rw [hact] at hred
-  simp only at hred
-  rw [hrule] at hred
-  simp only [List.all_eq_true] at hred
-  have hq := hred p' hback
   have hmem : rule ∈ g.rules.toList := by
     rw [Array.mem_toList_iff]; exact Array.mem_of_getElem? hrule
   have hwf := (wfFacts hc.wf).rules rule hmem
@@ -297,6 +333,19 @@ theorem StOk.reduce (hc : CertFacts g x.t cert) (hx : RankFacts g x xc)
   have hrest := h.drop rule.rhs.length hk
   rw [hdrop] at hrest
   have hp' : p' < x.t.nStates := hrest.lt hc p' (by simp)
+  have hpr : p' ∈ reachOf cert i := hrest.mem_reach p' (by simp)
+  have hred := hx.red i a s hi ha hs
+  unfold reduceOk at hred
+  rw [hact] at hred
+  simp only [Bool.or_eq_true, Bool.not_eq_true', List.contains_eq_mem, decide_eq_false_iff_not,
+    beq_iff_eq] at hred
+  rcases hred with (hred | hred) | hred
+  · exact absurd hsr hred
+  · exact absurd hred hfin
+  rw [hrule] at hred
+  simp only [List.all_eq_true, Bool.or_eq_true, Bool.not_eq_true', List.contains_eq_mem,
+    decide_eq_false_iff_not] at hred
+  have hq := (hred p' hback).resolve_left (fun h => h hpr)
   cases hg : gotoState x.t (p' : Nat) (rule.lhs : Nat) with
   | none => rw [hg] at hq; cases hq
   | some q =>
@@ -314,9 +363,11 @@ theorem StOk.reduce (hc : CertFacts g x.t cert) (hx : RankFacts g x xc)
       subst hq'
       have hE : NtEdge x.t p' rule.lhs (q' : Int) :=
         ⟨hp', by have := hc.nTerms; omega, by have := hc.nSyms; omega, hg, by omega⟩
+      have hedge : (p', rule.lhs, (q' : Int)) ∈ xedges x :=
+        List.mem_append_left _ (ntEdge_mem hE)
       refine ⟨rule, p', rest', q', hr0, hrule, hlen, hsym, hdrop, hg, ?_, ?_⟩
-      · exact StOk.push q' p' rest' rule.lhs _ hrest
-          (List.mem_append_left _ (ntEdge_mem hE)) hq2 hq3
+      · exact StOk.push q' p' rest' rule.lhs _ hrest hedge hq2 hq3
+          ((hcl i hi).2 p' rule.lhs q' hedge hpr)
       · simpa using hq.2
 
 end TmVerif.LRX
